@@ -901,4 +901,383 @@ theorem progress {cfg : Cfg} (hk : cfg.kind = .rlock) {s : State} (hL : LockInv 
     | nil => simp [Thread.held, hst] at hd; omega
     | cons f fs => simp [Thread.finished, hst]
 
+
+/-! ### the two routes: a consistent lock order excludes dead-lock -/
+namespace Routes
+
+structure RInv (s : RState) : Prop where
+  a1 : ∀ t, (s.pc t).holdsP = true → s.pkg = some (t, 1)
+  a2 : ∀ o d, s.pkg = some (o, d) → (s.pc o).holdsP = true
+  b1 : ∀ t m, (s.pc t).holdsM = some m → s.modLock m = some t
+  b2 : ∀ m o, s.modLock m = some o → (s.pc o).holdsM = some m
+  c : ∀ t, (s.pc t).isRe = false
+
+theorem RInv.init (progs : Tid → List Route) : RInv (rinit progs) := by
+  constructor <;> simp [rinit, Pc.holdsP, Pc.holdsM, Pc.isRe]
+
+theorem RInv.step {cfg : RCfg} (hno : ∀ m, cfg.reentry m = false) {s s' : RState} {t : Tid}
+    (h : RInv s) (hs : rstep cfg s t = some s') : RInv s' := by
+  obtain ⟨a1, a2, b1, b2, c⟩ := h
+  have a1t := a1 t
+  have b1t := b1 t
+  have ct := c t
+  unfold rstep at hs
+  split at hs
+  · -- idle
+    rename_i hpc
+    unfold rstepIdle at hs
+    split at hs
+    · simp at hs
+    all_goals
+      simp only [Option.some.injEq] at hs
+      subst hs
+      refine ⟨?_, ?_, ?_, ?_, ?_⟩
+      · intro u hu
+        by_cases hut : u = t
+        · subst hut; simp [Pc.holdsP] at hu
+        · simp only [hut, if_false] at hu; exact a1 u hu
+      · intro o d ho
+        have := a2 o d ho
+        by_cases hot : o = t
+        · subst hot; simp [hpc, Pc.holdsP] at this
+        · simp only [hot, if_false]; exact this
+      · intro u m hu
+        by_cases hut : u = t
+        · subst hut; simp [Pc.holdsM] at hu
+        · simp only [hut, if_false] at hu; exact b1 u m hu
+      · intro m o ho
+        have := b2 m o ho
+        by_cases hot : o = t
+        · subst hot; simp [hpc, Pc.holdsM] at this
+        · simp only [hot, if_false]; exact this
+      · intro u
+        by_cases hut : u = t
+        · subst hut; simp [Pc.isRe]
+        · simp only [hut, if_false]; exact c u
+  · -- wantP
+    rename_i m hpc
+    split at hs
+    · simp at hs
+    · rename_i lk hacq
+      simp only [Option.some.injEq] at hs
+      subst hs
+      have hlk : lk = some (t, 1) := by
+        cases hp : s.pkg with
+        | none => simp [hp, acquire] at hacq; exact hacq.symm
+        | some p =>
+          obtain ⟨o, d⟩ := p
+          simp only [hp, acquire] at hacq
+          split at hacq
+          · rename_i hot; subst hot
+            have := a2 o d hp
+            simp [hpc, Pc.holdsP] at this
+          · simp at hacq
+      subst hlk
+      have hfree : ∀ u, u ≠ t → (s.pc u).holdsP = false := by
+        intro u hut
+        cases hh : (s.pc u).holdsP with
+        | false => rfl
+        | true =>
+          have h1 := a1 u hh
+          cases hp : s.pkg with
+          | none => rw [hp] at h1; simp at h1
+          | some p =>
+            obtain ⟨o, d⟩ := p
+            rw [hp] at h1; simp at h1
+            simp only [hp, acquire] at hacq
+            rw [h1.1] at hacq
+            simp [hut] at hacq
+      refine ⟨?_, ?_, ?_, ?_, ?_⟩
+      · intro u hu
+        by_cases hut : u = t
+        · subst hut; rfl
+        · simp [setPc, hut] at hu; rw [hfree u hut] at hu; simp at hu
+      · intro o d ho
+        simp [setPc] at ho ⊢
+        simp [ho.1, Pc.holdsP]
+      · intro u m' hu
+        by_cases hut : u = t
+        · subst hut; simp [setPc, Pc.holdsM] at hu
+        · simp [setPc, hut] at hu ⊢; exact b1 u m' hu
+      · intro m' o ho
+        have := b2 m' o (by simpa [setPc] using ho)
+        by_cases hot : o = t
+        · subst hot; simp [hpc, Pc.holdsM] at this
+        · simp [setPc, hot]; exact this
+      · intro u
+        by_cases hut : u = t
+        · subst hut; simp [setPc, Pc.isRe]
+        · simp [setPc, hut]; exact c u
+  · -- wantM
+    rename_i m v hpc
+    split at hs
+    · simp at hs
+    · rename_i hml
+      simp only [Option.some.injEq] at hs
+      subst hs
+      refine ⟨?_, ?_, ?_, ?_, ?_⟩
+      · intro u hu
+        by_cases hut : u = t
+        · subst hut
+          simp [setPc, Pc.holdsP] at hu
+          simpa [setPc] using a1 u (by simp [hpc, Pc.holdsP, hu])
+        · simp [setPc, hut] at hu ⊢; exact a1 u hu
+      · intro o d ho
+        have := a2 o d (by simpa [setPc] using ho)
+        by_cases hot : o = t
+        · subst hot; simpa [setPc, hpc, Pc.holdsP] using this
+        · simp [setPc, hot]; exact this
+      · intro u m' hu
+        by_cases hut : u = t
+        · subst hut; simp [setPc, Pc.holdsM] at hu; subst hu; simp [setPc]
+        · simp [setPc, hut] at hu ⊢
+          have := b1 u m' hu
+          by_cases hm : m' = m
+          · subst hm; rw [hml] at this; simp at this
+          · simp [hm]; exact this
+      · intro m' o ho
+        simp only [setPc] at ho ⊢
+        by_cases hm : m' = m
+        · subst hm; simp at ho; subst ho; simp [Pc.holdsM]
+        · simp [hm] at ho
+          have := b2 m' o ho
+          by_cases hot : o = t
+          · subst hot; simp [hpc, Pc.holdsM] at this
+          · simp [hot]; exact this
+      · intro u
+        by_cases hut : u = t
+        · subst hut; simp [setPc, Pc.isRe]
+        · simp [setPc, hut]; exact c u
+  · -- body
+    rename_i m v hpc
+    simp only [Option.some.injEq] at hs
+    subst hs
+    unfold rstepBody
+    simp only [hno m, Bool.false_eq_true, if_false]
+    have key : ∀ (s0 : RState), s0.pkg = s.pkg → s0.modLock = s.modLock → s0.pc = s.pc → RInv (setPc s0 t (.relM m v)) := by
+      intro s0 e1 e2 e3
+      refine ⟨?_, ?_, ?_, ?_, ?_⟩
+      · intro u hu
+        by_cases hut : u = t
+        · subst hut
+          simp [setPc, Pc.holdsP] at hu
+          simpa [setPc, e1] using a1 u (by simp [hpc, Pc.holdsP, hu])
+        · simp [setPc, hut, e3] at hu ⊢; rw [e1]; exact a1 u hu
+      · intro o d ho
+        have := a2 o d (by simpa [setPc, e1] using ho)
+        by_cases hot : o = t
+        · subst hot; simpa [setPc, hpc, Pc.holdsP] using this
+        · simp [setPc, hot, e3]; exact this
+      · intro u m' hu
+        by_cases hut : u = t
+        · subst hut; simp [setPc, Pc.holdsM] at hu; subst hu
+          simpa [setPc, e2] using b1 u m (by simp [hpc, Pc.holdsM])
+        · simp [setPc, hut, e3] at hu ⊢; rw [e2]; exact b1 u m' hu
+      · intro m' o ho
+        have := b2 m' o (by simpa [setPc, e2] using ho)
+        by_cases hot : o = t
+        · subst hot; simpa [setPc, hpc, Pc.holdsM] using this
+        · simp [setPc, hot, e3]; exact this
+      · intro u
+        by_cases hut : u = t
+        · subst hut; simp [setPc, Pc.isRe]
+        · simp [setPc, hut, e3]; exact c u
+    split
+    · exact key s rfl rfl rfl
+    · exact key _ rfl rfl rfl
+  · -- reWantP: unreachable
+    rename_i m v hpc
+    simp [hpc, Pc.isRe] at ct
+  · rename_i m v hpc
+    simp [hpc, Pc.isRe] at ct
+  · -- relM
+    rename_i m v hpc
+    simp only [Option.some.injEq] at hs
+    subst hs
+    have hown : s.modLock m = some t := b1 t m (by simp [hpc, Pc.holdsM])
+    refine ⟨?_, ?_, ?_, ?_, ?_⟩
+    · intro u hu
+      by_cases hut : u = t
+      · subst hut
+        have : v = true := by cases v <;> simp [setPc, Pc.holdsP] at hu ⊢
+        subst this
+        simpa [setPc] using a1 u (by simp [hpc, Pc.holdsP])
+      · simp [setPc, hut] at hu ⊢; exact a1 u hu
+    · intro o d ho
+      have := a2 o d (by simpa [setPc] using ho)
+      by_cases hot : o = t
+      · subst hot
+        have hv : v = true := by simpa [hpc, Pc.holdsP] using this
+        subst hv; simp [setPc, Pc.holdsP]
+      · simp [setPc, hot]; exact this
+    · intro u m' hu
+      by_cases hut : u = t
+      · subst hut; cases v <;> simp [setPc, Pc.holdsM] at hu
+      · simp [setPc, hut] at hu ⊢
+        have := b1 u m' hu
+        by_cases hm : m' = m
+        · subst hm; rw [hown] at this; simp at this; exact absurd this.symm hut
+        · simp [hm]; exact this
+    · intro m' o ho
+      simp only [setPc] at ho ⊢
+      by_cases hm : m' = m
+      · subst hm; simp at ho
+      · simp [hm] at ho
+        have := b2 m' o ho
+        by_cases hot : o = t
+        · subst hot; simp [hpc, Pc.holdsM] at this; exact absurd this.symm hm
+        · simp [hot]; exact this
+    · intro u
+      by_cases hut : u = t
+      · subst hut; cases v <;> simp [setPc, Pc.isRe]
+      · simp [setPc, hut]; exact c u
+  · -- relP
+    rename_i m hpc
+    have hp : s.pkg = some (t, 1) := a1 t (by simp [hpc, Pc.holdsP])
+    simp [hp, release] at hs
+    subst hs
+    refine ⟨?_, ?_, ?_, ?_, ?_⟩
+    · intro u hu
+      by_cases hut : u = t
+      · subst hut; simp [setPc, Pc.holdsP] at hu
+      · simp [setPc, hut] at hu
+        have := a1 u hu
+        rw [hp] at this; simp at this; exact absurd this.symm hut
+    · intro o d ho; simp [setPc] at ho
+    · intro u m' hu
+      by_cases hut : u = t
+      · subst hut; simp [setPc, Pc.holdsM] at hu
+      · simp [setPc, hut] at hu ⊢; exact b1 u m' hu
+    · intro m' o ho
+      have := b2 m' o (by simpa [setPc] using ho)
+      by_cases hot : o = t
+      · subst hot; simp [hpc, Pc.holdsM] at this
+      · simp [setPc, hot]; exact this
+    · intro u
+      by_cases hut : u = t
+      · subst hut; simp [setPc, Pc.isRe]
+      · simp [setPc, hut]; exact c u
+
+inductive RReach (cfg : RCfg) (s0 : RState) : RState → Prop
+  | init : RReach cfg s0 s0
+  | next {s s' : RState} {t : Tid} : RReach cfg s0 s → rstep cfg s t = some s' → RReach cfg s0 s'
+
+theorem RInv.reach {cfg : RCfg} (hno : ∀ m, cfg.reentry m = false) {progs : Tid → List Route} {s : RState}
+    (h : RReach cfg (rinit progs) s) : RInv s := by
+  induction h with
+  | init => exact RInv.init progs
+  | next _ hs ih => exact ih.step hno hs
+
+theorem rreach_rrun {cfg : RCfg} {s0 s : RState} (h : RReach cfg s0 s) (sched : List Tid) :
+    RReach cfg s0 (rrun cfg s sched) := by
+  induction sched generalizing s with
+  | nil => exact h
+  | cons t ts ih =>
+    simp only [rrun]
+    split
+    · rename_i s' hs; exact ih (.next h hs)
+    · exact ih h
+
+/-- a thread that holds a module lock can always move (no re-entry: it never asks for anything else) -/
+theorem enabled_of_holdsM {cfg : RCfg} {s : RState} (h : RInv s) {o : Tid} {m : Mod}
+    (ho : (s.pc o).holdsM = some m) : (rstep cfg s o).isSome = true := by
+  have hc := h.c o
+  unfold rstep
+  cases hpc : s.pc o <;> simp [hpc, Pc.holdsM, Pc.isRe] at ho hc ⊢
+
+theorem enabled_wantM {cfg : RCfg} {s : RState} (h : RInv s) {u : Tid} {m : Mod} {v : Bool}
+    (hpc : s.pc u = .wantM m v) : ∃ t, (rstep cfg s t).isSome = true := by
+  cases hml : s.modLock m with
+  | none => exact ⟨u, by simp [rstep, hpc, hml]⟩
+  | some o => exact ⟨o, enabled_of_holdsM h (h.b2 m o hml)⟩
+
+theorem rprogress {cfg : RCfg} {s : RState} (h : RInv s) (hnc : ¬ RComplete s) :
+    ∃ t, (rstep cfg s t).isSome = true := by
+  have : ∃ t, ¬ (s.pc t = .idle ∧ s.todo t = []) := Classical.not_forall.mp hnc
+  obtain ⟨t, ht⟩ := this
+  cases hpc : s.pc t with
+  | idle =>
+    refine ⟨t, ?_⟩
+    have : s.todo t ≠ [] := fun e => ht ⟨hpc, e⟩
+    unfold rstep rstepIdle
+    simp only [hpc]
+    cases htd : s.todo t with
+    | nil => exact absurd htd this
+    | cons r rest => cases r <;> rfl
+  | wantP m =>
+    cases hp : s.pkg with
+    | none => exact ⟨t, by simp [rstep, hpc, hp, acquire]⟩
+    | some p =>
+      obtain ⟨o, d⟩ := p
+      have ho := h.a2 o d hp
+      have hc := h.c o
+      have h1 := h.a1 o ho
+      cases hpo : s.pc o with
+      | idle => simp [hpo, Pc.holdsP] at ho
+      | wantP m' => simp [hpo, Pc.holdsP] at ho
+      | wantM m' v => exact enabled_wantM h hpo
+      | body m' v => exact ⟨o, enabled_of_holdsM (m := m') h (by simp [hpo, Pc.holdsM])⟩
+      | reWantP m' v => simp [hpo, Pc.isRe] at hc
+      | reHasP m' v => simp [hpo, Pc.isRe] at hc
+      | relM m' v => exact ⟨o, enabled_of_holdsM (m := m') h (by simp [hpo, Pc.holdsM])⟩
+      | relP m' => exact ⟨o, by simp [rstep, hpo, h1, release]⟩
+  | wantM m v => exact enabled_wantM h hpc
+  | body m v => exact ⟨t, enabled_of_holdsM (m := m) h (by simp [hpc, Pc.holdsM])⟩
+  | reWantP m v => have := h.c t; simp [hpc, Pc.isRe] at this
+  | reHasP m v => have := h.c t; simp [hpc, Pc.isRe] at this
+  | relM m v => exact ⟨t, enabled_of_holdsM (m := m) h (by simp [hpc, Pc.holdsM])⟩
+  | relP m =>
+    have h1 := h.a1 t (by simp [hpc, Pc.holdsP])
+    exact ⟨t, by simp [rstep, hpc, h1, release]⟩
+
+
+theorem rstep_others {cfg : RCfg} {s s' : RState} {t u : Tid} (hs : rstep cfg s t = some s') (hu : u ≠ t) :
+    s'.pc u = s.pc u ∧ s'.todo u = s.todo u := by
+  unfold rstep at hs
+  split at hs
+  · unfold rstepIdle at hs
+    split at hs
+    · simp at hs
+    all_goals (simp only [Option.some.injEq] at hs; subst hs; simp [hu])
+  · split at hs
+    · simp at hs
+    · simp only [Option.some.injEq] at hs; subst hs; simp [setPc, hu]
+  · split at hs
+    · simp at hs
+    · simp only [Option.some.injEq] at hs; subst hs; simp [setPc, hu]
+  · simp only [Option.some.injEq] at hs; subst hs
+    unfold rstepBody
+    split
+    · simp [setPc, hu]
+    · split <;> simp [setPc, hu]
+  · split at hs
+    · simp at hs
+    · simp only [Option.some.injEq] at hs; subst hs; simp [setPc, hu]
+  · split at hs
+    · simp at hs
+    · simp only [Option.some.injEq] at hs; subst hs; simp [setPc, hu]
+  · simp only [Option.some.injEq] at hs; subst hs; simp [setPc, hu]
+  · split at hs
+    · simp at hs
+    · simp only [Option.some.injEq] at hs; subst hs; simp [setPc, hu]
+
+theorem rrun_others (cfg : RCfg) (u : Tid) : ∀ (sched : List Tid) (s : RState), u ∉ sched →
+    (rrun cfg s sched).pc u = s.pc u ∧ (rrun cfg s sched).todo u = s.todo u
+  | [], _, _ => ⟨rfl, rfl⟩
+  | t :: ts, s, h => by
+    simp only [List.mem_cons, not_or] at h
+    simp only [rrun]
+    split
+    · rename_i s' hs
+      have h1 := rrun_others cfg u ts s' h.2
+      have h2 := rstep_others hs h.1
+      exact ⟨h1.1.trans h2.1, h1.2.trans h2.2⟩
+    · exact rrun_others cfg u ts s h.2
+
+theorem rstep_none_of_done (cfg : RCfg) (s : RState) (t : Tid) (h1 : s.pc t = .idle) (h2 : s.todo t = []) :
+    rstep cfg s t = none := by
+  simp [rstep, h1, rstepIdle, h2]
+
+end Routes
+
 end SqlglotModel.Threads
